@@ -147,6 +147,32 @@ func RunC16Diff(p *Plan, env *Env) *RunResult {
 	if len(res.Violations) > 0 || res.Harness != "" {
 		return res
 	}
+	// cache-pressure fault: where a page the file does not hold sat clean in
+	// the cache, run again with every other clean page marked dirty at that
+	// event; O-evict decides whether the page is really dropped
+	for _, ev := range b.PressureHints {
+		pr := small.Clone()
+		pr.Knobs.PressureAt = ev
+		c := RunPlan(pr, env)
+		res.Stats["c16_pressure_runs"]++
+		res.Stats["pressure_applied"] += c.Stats["pressure_applied"]
+		res.Stats["pressure_pages_marked_dirty"] += c.Stats["pressure_pages_marked_dirty"]
+		res.SimMs += c.SimMs
+		if c.Harness != "" {
+			res.Harness = c.Harness
+			return res
+		}
+		for _, v := range c.Violations {
+			if v.Features == nil {
+				v.Features = map[string]string{}
+			}
+			v.Features["fault"] = "cache-pressure"
+			res.Violations = append(res.Violations, v)
+		}
+		if len(res.Violations) > 0 {
+			return res
+		}
+	}
 	if b.Abandoned != "" || a.Abandoned != "" {
 		res.Abandoned = a.Abandoned + b.Abandoned
 		res.Stats["c16_precondition_exit"]++
